@@ -197,7 +197,18 @@ def check_no_lp_outflow(ctx, model, crate, rule, lp_field):
                 f = dict(zip(rv["fields"], rv["ops"]))
                 to = v.origins_of_operand(f["contract_addr"], at=(b, i), taint=True)
                 msg = v.origins_of_operand(f["msg"], at=(b, i), taint=True)
-                is_lp = any(o.proj and lp_field in o.proj for o in to) or any(o.kind == "param" and (v.var_name(o.a) or "").startswith("liquidity") for o in to)
+                is_lp = any(o.proj and lp_field in o.proj for o in to)
+                if not is_lp and to and all(o.kind == "param" and not o.proj for o in to):
+                    # helper taking the LP token address as a parameter: resolve at the call sites
+                    for (cp, cb, ck) in model.callers().get(p, []):
+                        if ck != "call":
+                            continue
+                        cv = model.view(cp)
+                        ct = cv.blocks[cb]["t"]
+                        for o in to:
+                            if o.a - 1 < len(ct["args"]):
+                                if any(x.proj and lp_field in x.proj for x in cv.origins_of_operand(ct["args"][o.a - 1], at=cv.at_term(cb), taint=True)):
+                                    is_lp = True
                 kinds = {o.a.split("::")[-1] for o in msg if o.kind == "agg" and o.a.startswith("cw20::Cw20ExecuteMsg::")}
                 if is_lp:
                     n += 1
